@@ -206,11 +206,24 @@ func c19Constructors(r *core.Run) {
 	bad := func(pair, clause, detail string, args map[string]string) {
 		r.Violate("C19|"+pair+"|"+clause, detail, core.Case{Kind: "ctor", Args: args})
 	}
-	codes := []int{0, 1, 2, 3, 4, 5, 6, 7, 8, 9, 10, 11, 12, 20, 21, 255, 256, 65279, 65280, 65534, 65535}
+	codes := []int{0, 1, 2, 3, 4, 5, 6, 7, 8, 9, 10, 11, 12, 20, 21, 255, 256, 65279, 65280, 65534, 65535, 65536, 65543, 1 << 31, -1}
 	for _, s := range codes {
 		for _, c := range codes {
 			r.Evaluations.Add(1)
 			args := map[string]string{"sig": fmt.Sprint(s), "crypto": fmt.Sprint(c)}
+			if s < 0 || c < 0 || s > 65535 || c > 65535 {
+				// outside the 16-bit fields: every entry point must refuse (none may store a wrapped value)
+				_, e1 := certificate.BuildKeyTypePayload(s, c)
+				_, e2 := key_certificate.NewKeyCertificateWithTypes(s, c)
+				_, e3 := certificate.NewCertificateBuilder().WithKeyTypes(s, c)
+				if e1 == nil || e2 == nil {
+					bad("BuildKeyTypePayload~NewKeyCertificateWithTypes", "acceptance[key-type-range]", fmt.Sprintf("types %d/%d outside the 16-bit fields: BuildKeyTypePayload err=%v NewKeyCertificateWithTypes err=%v", s, c, e1, e2), args)
+				}
+				if e3 == nil {
+					bad("CertificateBuilder(sequence)~direct", "acceptance[key-type-range]", fmt.Sprintf("types %d/%d outside the 16-bit fields: CertificateBuilder.WithKeyTypes accepts them, BuildKeyTypePayload err=%v NewKeyCertificateWithTypes err=%v", s, c, e1, e2), args)
+				}
+				continue
+			}
 			want := refmodel.Cert{Type: refmodel.CertKey, Payload: refmodel.KeyCertPayload(s, c, nil)}.Bytes()
 			// BuildKeyTypePayload + NewCertificateWithType
 			var viaPayload []byte
@@ -388,6 +401,11 @@ func runC19(r *core.Run) {
 		}
 	})
 	c19Constructors(r)
+	bd := 4
+	if !r.Quick() {
+		bd = 5
+	}
+	c19BuilderSequences(r, bd)
 	r.Sample(map[string]any{"pair": "ReadKeysAndCert ~ ReadKeysAndCertX25519AndEd25519", "domain": "KEY certificate declaring 7/4"})
 	r.Sample(map[string]any{"pair": "CertificateBuilder(WithPayload(junk),WithKeyTypes(7,4),Build) ~ NewKeyCertificateWithTypes(7,4)"})
 }
@@ -409,6 +427,16 @@ func replayC19(r *core.Run, c core.Case) {
 		}
 		if name == "sig" {
 			c19Signature(r, in)
+		}
+	case "builderseq":
+		var seq []int
+		for _, f := range strings.Fields(strings.Trim(c.Args["seq"], "[]")) {
+			var n int
+			fmt.Sscan(f, &n)
+			seq = append(seq, n)
+		}
+		if cl, detail := c19RunBuilderSeq(c19BuilderOps(), seq); cl != "" {
+			r.Violate("C19|CertificateBuilder(sequence)~direct|"+cl, detail, c)
 		}
 	default:
 		c19Constructors(r)
